@@ -435,3 +435,56 @@ def callable_env(forest, mod, interp, extra_env=None):
     if extra_env:
         genv.update(extra_env)
     return genv
+
+
+class _AnyName:
+    def __contains__(self, name):
+        return True
+
+
+class Instance:
+    """An instance of a repository class for the interpreter: attribute stores are kept, attribute loads fall back to the
+    class body -- a `@property` is evaluated, a method is bound.  `__init__` is not run implicitly (call `new`)."""
+    _model = _AnyName()
+
+    def __init__(self, forest, mod, cls, genv, interp):
+        object.__setattr__(self, '_meta', (forest, mod, cls, genv, interp))
+        object.__setattr__(self, '_attrs', {})
+
+    @classmethod
+    def new(cls, forest, mod, clsname, genv, interp, *args, **kw):
+        obj = cls(forest, mod, clsname, genv, interp)
+        if forest.has_func(mod, f'{clsname}.__init__'):
+            FuncVal(forest.func(mod, f'{clsname}.__init__'), genv, interp)(obj, *args, **kw)
+        return obj
+
+    def __getattr__(self, name):
+        attrs = object.__getattribute__(self, '_attrs')
+        if name in attrs:
+            return attrs[name]
+        forest, mod, clsname, genv, it = object.__getattribute__(self, '_meta')
+        if name.startswith('__') and name not in ('__class__',):
+            raise AttributeError(name)
+        if forest.has_func(mod, f'{clsname}.{name}'):
+            fn = forest.func(mod, f'{clsname}.{name}')
+            fv = FuncVal(fn, genv, it)
+            decos = [d.id if isinstance(d, ast.Name) else getattr(d, 'attr', None) for d in fn.decorator_list]
+            if 'property' in decos:
+                return fv(self)
+            if 'staticmethod' in decos:
+                return fv
+            return lambda *a, **k: fv(self, *a, **k)
+        # class-level constants
+        for st in forest.cls(mod, clsname).body:
+            if isinstance(st, ast.Assign) and len(st.targets) == 1 and isinstance(st.targets[0], ast.Name) and st.targets[0].id == name:
+                return ev(st.value, genv)
+        raise PyRaise(AttributeError, None, f'{clsname!r} object has no attribute {name!r}')
+
+    def __setattr__(self, name, val):
+        object.__getattribute__(self, '_attrs')[name] = val
+
+
+def module_namespace(forest, mod, interp, extra=None):
+    """`mod` as an object whose attributes are its (callable) functions and folded constants: what `import mod` binds."""
+    genv = callable_env(forest, mod, interp, extra)
+    return _evmod.Namespace(mod, genv)
